@@ -195,3 +195,23 @@ Theorem c14_cleanup_write_is_one_request : forall meta_enc meta_dec cfg mn mx w 
   w_ranges (cleanup_request id (match cl_keys c with Some ks => ks | None => [] end)) = [mkRange (shadow_lo id) (shadow_hi id)].
 Proof. exact cleanup_write_is_one_request. Qed.
 Print Assumptions c14_cleanup_write_is_one_request.
+
+(* Sessions after a leader change = the sessions of the log.  BecomeLeader applies the whole log before Initialize, so
+   the DB read is [apply_log ... log] whatever prefix the node had applied as a follower: the leader change alters no
+   session key; every session of the new manager comes from a stored session key with decodable metadata and is armed
+   with a full timeout at the time of the change; every stored, decodable session key (no other listed key denoting the
+   same id) is among them. *)
+Theorem c14_sessions_after_leader_change : forall meta_enc meta_dec cfg mn mx log closing sessions term ts now,
+  let db0 := apply_log cfg init_state log in
+  let w := mkWorld db0 sessions closing in
+  let w' := fst (step meta_enc meta_dec cfg mn mx w (ALeaderChange term ts now)) in
+  snd (step meta_enc meta_dec cfg mn mx w (ALeaderChange term ts now)) = ODone ->
+  (forall z, alive (st_kv (sw_db w')) z = alive (st_kv db0) z) /\
+  (forall z ss, In (z, ss) (sw_sessions w') ->
+     ss_armed ss = now /\ found_in meta_dec (sw_db w') (db_list (sw_db w') session_lo session_hi) z (ss_timeout ss)) /\
+  (forall z e t, (0 <= z < 9223372036854775808)%Z ->
+     kv_get (st_kv db0) (session_key z) = Some (VRecord e) -> meta_dec (e_value e) = Some t ->
+     (forall y, In y (db_list (sw_db w') session_lo session_hi) -> key_to_id y = Some z -> y = session_key z) ->
+     In (z, mkSess t now) (sw_sessions w')).
+Proof. exact sessions_after_leader_change. Qed.
+Print Assumptions c14_sessions_after_leader_change.
